@@ -39,6 +39,7 @@ type Case struct {
 	ScopedDepth  int64
 	Entry        string // sync | announce
 	SegScoped    bool   // apply the segment size per call (ScopedSegmentDepthLimit) instead of subscriber-wide
+	ScopedHook   bool   // the call brings its own block hook (ScopedBlockHook): the subscriber's hook must stay silent
 
 	Segs      []int64 // segment sizes: -1 = disabled
 	Prestores [][]int // positions pre-stored in the destination store
@@ -73,6 +74,7 @@ func genCase(t *rapid.T) Case {
 		c.Entry = "announce"
 	}
 	c.SegScoped = c.Kind == "ads" && c.Entry == "sync" && rapid.Bool().Draw(t, "segscoped")
+	c.ScopedHook = c.Entry == "sync" && c.Kind != "one" && rapid.IntRange(0, 2).Draw(t, "scopedhook") == 0
 	// family
 	segSet := map[int64]bool{-1: true, 1: true}
 	for i := 0; i < 3; i++ {
@@ -331,11 +333,17 @@ func runMember(t *testing.T, c Case, seg int64, pre []int) (o obs, fail string) 
 			if c.SegScoped {
 				so = append(so, dagsync.ScopedSegmentDepthLimit(seg))
 			}
+			if c.ScopedHook {
+				so = append(so, dagsync.ScopedBlockHook(s.ScopedHook()))
+			}
 			ret, err = s.S.SyncAdChain(ctx, p.Info(), so...)
 		case c.Kind == "entries":
 			var so []dagsync.SyncOption
 			if c.ScopedDepth != 0 {
 				so = append(so, dagsync.ScopedDepthLimit(c.ScopedDepth))
+			}
+			if c.ScopedHook {
+				so = append(so, dagsync.ScopedBlockHook(s.ScopedHook()))
 			}
 			err = s.S.SyncEntries(ctx, p.Info(), chain[c.HeadPos], so...)
 			ret = chain[c.HeadPos]
@@ -343,14 +351,32 @@ func runMember(t *testing.T, c Case, seg int64, pre []int) (o obs, fail string) 
 			err = s.S.SyncOneEntry(ctx, p.Info(), chain[c.HeadPos])
 			ret = chain[c.HeadPos]
 		case c.Kind == "hamt":
-			err = s.S.SyncHAMTEntries(ctx, p.Info(), chain[c.HeadPos])
+			var so []dagsync.SyncOption
+			if c.ScopedHook {
+				so = append(so, dagsync.ScopedBlockHook(s.ScopedHook()))
+			}
+			err = s.S.SyncHAMTEntries(ctx, p.Info(), chain[c.HeadPos], so...)
 			ret = chain[c.HeadPos]
 		}
 		w.Settle()
 		if err != nil {
 			o.Err = err.Error()
 		}
-		for _, h := range s.HookCids(hooks0) {
+		observed := s.HookCids(hooks0)
+		if c.ScopedHook {
+			// the call's own hook replaces the subscriber's for this sync
+			if len(observed) != 0 {
+				fail = fmt.Sprintf("the subscriber's general hook was called %d times during a sync that brought its own scoped hook", len(observed))
+			}
+			observed = nil
+			for _, hc := range s.ScopedCalls() {
+				observed = append(observed, hc.Cid)
+				if hc.Peer != p.ID {
+					fail = fmt.Sprintf("scoped hook called with peer %s, publisher is %s", hc.Peer, p.ID)
+				}
+			}
+		}
+		for _, h := range observed {
 			if i, ok := pos[h.String()]; ok {
 				o.Hooks = append(o.Hooks, i)
 			} else {
@@ -540,7 +566,7 @@ func runCase(t *testing.T) func(Case) pbt.Result {
 	}
 }
 
-const rule = "base configuration: chain kind (ads via SyncAdChain or announce, entries via SyncEntries / SyncOneEntry, a path of generic linked nodes via SyncHAMTEntries) x length 1..12 x initial latest-sync (none, SetLatestSync position, earlier real sync, WithLastKnownSync, head, off-chain) x stop CID (none, position, head, off-chain) x resync x explicit or queried head x AdsDepthLimit / EntriesDepthLimit / FirstSyncDepth / ScopedDepthLimit (unset, -1, 1..n+2) x plain or discovery transport; each base configuration is run as a family over segment sizes {disabled, 1, 3 drawn in 1..n+2} (subscriber-wide or per call) x pre-stored subsets {none, all, drawn, head only}; oracles: reference model of the expected block list (hooks in order, once each, right peer; blocks readable and hashing to their CID; returned head; latest-sync and exactly one event with the count, or unchanged and none), request log (block requests = expected list minus locally stored blocks, in order; head request iff queried), and identical observations across the family. Non-trivial: expected list >= 2 blocks and (cut by stop/depth, or segment smaller than the list, or something pre-stored); distinct by base configuration."
+const rule = "base configuration: chain kind (ads via SyncAdChain or announce, entries via SyncEntries / SyncOneEntry, a path of generic linked nodes via SyncHAMTEntries) x length 1..12 x initial latest-sync (none, SetLatestSync position, earlier real sync, WithLastKnownSync, head, off-chain) x stop CID (none, position, head, off-chain) x resync x explicit or queried head x the subscriber's block hook or a hook scoped to the call x AdsDepthLimit / EntriesDepthLimit / FirstSyncDepth / ScopedDepthLimit (unset, -1, 1..n+2) x plain or discovery transport; each base configuration is run as a family over segment sizes {disabled, 1, 3 drawn in 1..n+2} (subscriber-wide or per call) x pre-stored subsets {none, all, drawn, head only}; oracles: reference model of the expected block list (hooks in order, once each, right peer; blocks readable and hashing to their CID; returned head; latest-sync and exactly one event with the count, or unchanged and none), request log (block requests = expected list minus locally stored blocks, in order; head request iff queried), and identical observations across the family. Non-trivial: expected list >= 2 blocks and (cut by stop/depth, or segment smaller than the list, or something pre-stored); distinct by base configuration."
 
 var assumptions = []string{"strict ads selector (the default); the non-strict selector follows every link and is not modelled", "resync together with a queried head: latest-sync update is not asserted (documentation and code disagree)", "announce-triggered syncs announce the chain head"}
 
